@@ -171,3 +171,40 @@ Definition commitment_fee_chk (i : cfee_in) : option Z :=
   obind (chk (ci_fee i + asfee)) (fun tot =>
   obind (chk (tot * ci_bips i)) (fun m2 =>
   chk (quo_round_up m2 twenty_k)))))))).
+
+(** ** MsgFeesDistribution.Increase (x/msgfees/types/fee.go), one denom.
+    [d_total] = TotalAdditionalFees, [d_module] = AdditionalModuleFees, [d_recips] = the
+    RecipientDistributions map as an association list (recipient id, amount).  A non-positive coin
+    is ignored; without a recipient everything goes to the module; otherwise the coin is split by
+    bips (an error for bips > 10000 leaves the total already increased, as the Go code does). *)
+Record dist := { d_total : Z; d_module : Z; d_recips : list (N * Z) }.
+
+Fixpoint recip_add (l : list (N * Z)) (r : N) (a : Z) : list (N * Z) :=
+  match l with
+  | [] => [(r, a)]
+  | (r', v) :: t => if N.eqb r r' then (r', v + a) :: t else (r', v) :: recip_add t r a
+  end.
+
+Definition recips_sum (l : list (N * Z)) : Z := fold_right (fun p acc => snd p + acc) 0 l.
+
+(** [recipient = None] is the empty recipient string. Returns (new state, ok?). *)
+Definition dist_increase (d : dist) (amt bips : Z) (recipient : option N) : dist * bool :=
+  if amt <=? 0 then (d, true)
+  else
+    let d1 := {| d_total := d_total d + amt; d_module := d_module d; d_recips := d_recips d |} in
+    match recipient with
+    | None => ({| d_total := d_total d1; d_module := d_module d1 + amt; d_recips := d_recips d1 |}, true)
+    | Some r =>
+        match split_by_bips amt bips with
+        | None => (d1, false)
+        | Some (rc, rest) =>
+            ({| d_total := d_total d1;
+                d_module := if rest =? 0 then d_module d1 else d_module d1 + rest;
+                d_recips := recip_add (d_recips d1) r rc |}, true)
+        end
+    end.
+
+Definition dist_run (d : dist) (ops : list (Z * Z * option N)) : dist :=
+  fold_left (fun st o => let '(amt, bips, r) := o in fst (dist_increase st amt bips r)) ops d.
+
+Definition dist_empty : dist := {| d_total := 0; d_module := 0; d_recips := [] |}.
